@@ -41,3 +41,11 @@ Example c13_example :
   go_call (txt "sha256//ungWv48Bz+pBQUDeXa4iI7ADYaOWF3qctBD/YfIAFa0=") [txt "x"; txt "abc"] false = Sent /\
   go_call (txt "ungWv48Bz+pBQUDeXa4iI7ADYaOWF3qctBD/YfIAFa0=") [txt "x"] true = RefusedNoMatch.
 Proof. vm_compute. repeat split; reflexivity. Qed.
+
+(** Redirects: a call which is led to further servers (the HTTP client follows a
+    302) holds EVERY connection to the pin - the k-th server receives a request
+    only if it and every server before it presented the pinned key. *)
+Theorem c13_redirects_are_pinned : forall fp want hops k, fp <> [] -> parse_fp fp = Some want ->
+  nth_error (go_hops fp hops) k = Some Sent ->
+  forall j, (j <= k)%nat -> exists chain trusted, nth_error hops j = Some (chain, trusted) /\ verify want chain = true.
+Proof. exact redirects_are_pinned. Qed.
